@@ -18,7 +18,7 @@ timestamp > last); every timestamp handed to a Record constructor in the store c
 get_timestamp / VersionClock::next or is an API parameter; recovery folds in every scanned timestamp before the
 winner/loser decision. Not decided: numeric monotonicity over histories; clock-shard collisions.
 """
-DECIDED = ['u64::MAX is never installed into a clock shard', "clock fed only on published writes, under the guard, after the gate", "next() = max(wall, last+1) via CAS, returns the installed value",
+DECIDED = ["every clock draw / observation uses the operation's own key (shard key provenance)", 'u64::MAX is never installed into a clock shard', "clock fed only on published writes, under the guard, after the gate", "next() = max(wall, last+1) via CAS, returns the installed value",
            "observe() only raises", "all automatic timestamps come from the clock", "recovery folds every scanned timestamp",
            'every Record constructor stores its timestamp parameter',
            'observe retries a lost compare-exchange']
@@ -228,7 +228,102 @@ def check_recovery(ctx):
         ctx.check(e.has_call("RecordFormat::parse_record"), inst, "PROVENANCE", b.path, "the timestamp folded in is the parsed one", b.where(o), {"expr": e.show()})
 
 
+CLOCK_CALLS = ("FeoxStore::get_timestamp", "FeoxStore::resolve_timestamp", "FeoxStore::observe_published_timestamp",
+               "VersionClock::next", "VersionClock::observe")
+HASH_OPS = ("HashMap::entry", "HashMap::get", "HashMap::read", "HashMap::update", "HashMap::remove", "HashMap::upsert", "HashMap::contains",
+            "HashMap::insert", "HashMap::remove_if")
+
+
+def check_shard_key(ctx, inst="C12.shard-key"):
+    """the version clock is sharded by key: "strictly greater than anything the key has seen" holds only if every draw and every
+    observation for an operation on key K goes to K's shard. At each clock call the key argument must be the key the operation
+    looks up / publishes under (the hash-table key, the key handed to the keyed store helpers, the stored key of an update
+    closure, the key of the record being indexed) - not another byte slice that happens to be in scope."""
+    prog = ctx.prog
+    n_sites = 0
+
+    def key_origins(b, e):
+        out = set()
+        for o in A.origins(b, e):
+            if o[0] in ("arg", "local"):
+                out.add(o)
+        for x in e.walk():
+            if x.k == "field" and x.extra[1] == "key" and (x.extra[0] or "").endswith("Record"):
+                out.add(("record-key",))
+        return out
+
+    def family(b):
+        fam = [b]
+        p = b
+        while p.parent and p.parent in prog.bodies:
+            p = prog.bodies[p.parent]
+            fam.append(p)
+        return fam
+
+    def reference(b):
+        ref = set()
+        for n in b.calls():
+            if len(n.ev["args"]) < 2:
+                continue
+            keyed = False
+            if any(R.call_matches(n.ev, h) for h in HASH_OPS) and R.recv_expr(b, n).has_field("FeoxStore", "hash_table"):
+                keyed = True
+            else:
+                for t in prog.targets(n.ev):
+                    tb = prog.bodies.get(t) if t else None
+                    if tb is not None and not any(path_matches(t, c) for c in CLOCK_CALLS) and tb.argc >= 2 and tb.local_name(2) == "key" and \
+                            (path_matches(t, "FeoxStore::*") or "FeoxStore" in (tb.impl_self or "") or "core::store" in t):
+                        keyed = True
+            if keyed:
+                ref |= key_origins(b, R.arg_expr(b, n, 1))
+        # a closure run by a hash-table operation receives the stored key as its first parameter
+        if b.is_closure and b.parent in prog.bodies:
+            par = prog.bodies[b.parent]
+            from rules.common import closure_carriers
+            for c in closure_carriers(par, b):
+                cn = par.nodes[c]
+                if any(R.call_matches(cn.ev, h) for h in HASH_OPS) and R.recv_expr(par, cn).has_field("FeoxStore", "hash_table"):
+                    ref.add(("arg", 2))
+        return ref
+
+    for b in prog.product_bodies():
+        if not ("core::store" in b.path or "core::ttl_sweep" in b.path):
+            continue
+        sites = [n for n in b.calls() if any(R.call_matches(n.ev, c) for c in CLOCK_CALLS) and len(n.ev["args"]) >= 2]
+        if not sites:
+            continue
+        owner = R.owner_fn(prog, b)
+        forwarder = any(path_matches(owner, c) for c in CLOCK_CALLS[:3])
+        ref = set()
+        for fb in family(b):
+            r = reference(fb)
+            if fb is not b:
+                # a parent's key reaches the closure as a captured variable: compare through the capture
+                r = {o for o in r if o[0] != "arg"} | {("parent",) + o for o in r}
+            ref |= r
+        for n in sites:
+            n_sites += 1
+            e = R.arg_expr(b, n, 1)
+            k = key_origins(b, e)
+            if forwarder:
+                good = ("arg", 2) in k
+                what = "the clock helper forwards its own `key` parameter"
+            else:
+                good = bool(k & ref)
+                if not good and b.is_closure:
+                    from rules.common import closure_expr_parents
+                    par, pes = closure_expr_parents(prog, b, e)
+                    pk = set()
+                    for pe in pes:
+                        pk |= key_origins(par, pe)
+                    good = bool({("parent",) + o for o in pk} & ref) or bool(pk & reference(par))
+                what = "the clock is drawn from / fed for the key the operation works on (same provenance as the hash-table / keyed-helper key)"
+            ctx.check(good, inst, "PROVENANCE", owner, what, b.where(n.id), {"key_arg": e.show()[:100], "origins": sorted(map(str, k))[:6]})
+    ctx.check(n_sites >= 20, inst, "anchor", "-", "clock call sites examined (>= 20, found %d)" % n_sites, None)
+
+
 def check(ctx):
+    check_shard_key(ctx)
     check_observe(ctx)
     check_next(ctx)
     check_source(ctx)
